@@ -105,6 +105,7 @@ JField(fd, attrs) == [a \in attrs |-> IF a = "req" THEN JReq(fd.req)
 JXor(x) == SetToSeq({ [m |-> SetToSeq(g.members), none |-> g.none] : g \in x })
 JProj(p) == IF "error" \in DOMAIN p THEN [error |-> p.error, names |-> SetToSeq(p.names)]
             ELSE [ fields |-> [f \in DOMAIN p.fields |-> JField(p.fields[f], DOMAIN p.fields[f])],
+                   order |-> p.order, outs |-> p.outs,
                    xor |-> JXor(p.xor) ]
 
 Case ==
